@@ -285,6 +285,19 @@ pub fn run(thorough: bool, seed: u64, _replay: Option<String>) -> Report {
             if model != want {
                 rep.fail("t3", "C17:multibyte-decoder-model-disagrees", &format!("{}: codec {} || model {}", enc, want.chars().take(80).collect::<String>(), model.chars().take(80).collect::<String>()), &b, None, enc);
             }
+            // the same bytes through the helper model in a lossy mode: what each rejected sequence swallows and the state
+            // the decoder goes on in are part of the model too
+            let trap = if i % 2 == 0 { DecoderTrap::Replace } else { DecoderTrap::Ignore };
+            let real = decode(&b, enc, trap, false, false).ok();
+            let model = drv.ask(&format!("helper {} {} 0 0 {}", enc, trap_name(trap), hex(&b)));
+            rep.t3_compared += 1;
+            let want = match &real {
+                Some(t) => format!("ok T{}", text_hex(t)),
+                None => "ok E".to_string(),
+            };
+            if model != want {
+                rep.fail("t3", "C17:multibyte-lossy-model-disagrees", &format!("{} {}: helper {} || model {}", enc, trap_name(trap), want.chars().take(120).collect::<String>(), model.chars().take(120).collect::<String>()), &b, None, enc);
+            }
         }
     }
     // ---- (a'') thorough tier: the two-byte space of every multi-byte decoder exhaustively (every lead byte >= 0x80 with every
@@ -339,6 +352,20 @@ pub fn run(thorough: bool, seed: u64, _replay: Option<String>) -> Report {
             };
             if model != want {
                 rep.fail("t3", "C17:multibyte-decoder-model-disagrees", &format!("{}: codec {} || model {}", enc, want, model), &b, None, enc);
+            }
+            // … and in replace mode between two ordinary bytes (what the rejected sequence swallows shows in what follows it)
+            let mut c = vec![b'a'];
+            c.extend_from_slice(&b);
+            c.extend_from_slice(b"bc");
+            let real = decode(&c, enc, DecoderTrap::Replace, false, false).ok();
+            let model = drv.ask(&format!("helper {} replace 0 0 {}", enc, hex(&c)));
+            rep.t3_compared += 1;
+            let want = match &real {
+                Some(t) => format!("ok T{}", text_hex(t)),
+                None => "ok E".to_string(),
+            };
+            if model != want {
+                rep.fail("t3", "C17:multibyte-lossy-model-disagrees", &format!("{} replace: helper {} || model {}", enc, want, model), &c, None, enc);
             }
         }
     }
